@@ -102,6 +102,23 @@ pub fn loose_belief() -> Option<Decimal> {
 }
 
 impl PairScn {
+    /// the LP-value / pro-rata / min-liquidity oracles belong to C01 (CP) and C03 (stableswap)
+    pub fn lp_oracles(&self) -> bool {
+        self.property == "C01" || self.property == "C03"
+    }
+
+    /// keep only the violations of oracle clauses that belong to the property being checked
+    fn keep_own(&self, cx: &mut Cx) {
+        let prefixes: &[&str] = match self.property.as_str() {
+            "C01" | "C03" => return,
+            "C07" => &["collect.", "ledger.", "burn."],
+            "C14" => &["sim_eq_exec."],
+            "C15" => &["spread."],
+            _ => &[],
+        };
+        cx.violations.retain(|v| prefixes.iter().any(|p| v.oracle.starts_with(p)));
+    }
+
     fn pair_type(&self) -> PairType {
         match self.stable_amp {
             Some(a) => PairType::StableSwap { amp: a },
@@ -494,6 +511,7 @@ impl Scenario for PairScn {
         let locked = w.cw20_balance(&p.lp, &p.addr);
         cx.check("min_liquidity.never_decreases", locked >= g.locked, || format!("pair-held LP went {} -> {}", g.locked, locked));
         g.locked = locked;
+        self.keep_own(cx);
     }
 
     fn invariants(&self, w: &mut World, h: &H, _g: &G, cx: &mut Cx) {
@@ -538,6 +556,7 @@ impl Scenario for PairScn {
                 }
             }
         }
+        self.keep_own(cx);
     }
 }
 
@@ -545,6 +564,9 @@ impl PairScn {
     /// LP value never decreases: CP → sqrt(R0*R1)/S ; stableswap → D(normalised)/S.
     #[allow(clippy::too_many_arguments)]
     fn oracle_lp_value(&self, cx: &mut Cx, h: &H, a: &Act, r0: [u128; 2], s0: u128, r1: [u128; 2], s1: u128) {
+        if !self.lp_oracles() {
+            return;
+        }
         match self.stable_amp {
             None => {
                 // R0'R1' * S^2 >= R0R1 * S'^2   (exact integers)
@@ -586,6 +608,9 @@ impl PairScn {
     }
 
     fn oracle_deposit(&self, cx: &mut Cx, h: &H, res: [u128; 2], supply: u128, d: [u128; 2], minted: u128) {
+        if !self.lp_oracles() {
+            return;
+        }
         match self.stable_amp {
             None => {
                 let m0 = b(d[0]) * b(supply) / b(res[0].max(1));
@@ -619,6 +644,9 @@ impl PairScn {
     }
 
     fn oracle_roundtrip(&self, cx: &mut Cx, h: &H, _res: [u128; 2], d: [u128; 2], got: [u128; 2]) {
+        if !self.lp_oracles() {
+            return;
+        }
         match self.stable_amp {
             None => {
                 cx.check("deposit_then_withdraw.no_gain", got[0] <= d[0] && got[1] <= d[1], || {
